@@ -8,7 +8,7 @@ namespace WgslVerif
 
 /-- `type = value` pair chosen for a literal -/
 def constTypeAndValue : Lit → String × LitVal
-  | .f64 b => ("f32", .fval b "f64")   -- consts.rs:18 as it stands: `Literal::F64(v) => quote!(f32 = #v)`
+  | .f64 b => ("f64", .fval b "f64")
   | .f32 b => ("f32", .fval b "f32")
   | .u32 n => ("u32", .ival n "u32")
   | .i32 n => ("i32", .ival n "i32")
@@ -46,20 +46,20 @@ def isBoolScalar (m : Module) (h : Nat) : Bool :=
 
 def overrideEntry (m : Module) (ov : Override) : G ROverrideEntry := do
   let key ← overrideKey ov
-  let name ← match ov.name with
-    | some n => pure n
-    | none => .error (.panic "unwrap:override-name")
+  let name ← unwrapName "override-name" ov.name
   pure { key := key, field := name, conv := if isBoolScalar m ov.ty then .bool else .cast }
+
+/-- `rust_type(module, &module.types[o.ty], MatrixVectorTypes::Rust)` -/
+def overrideFieldType (m : Module) (ov : Override) : G RustTy :=
+  match m.types[ov.ty]? with
+  | some t => rustType m .rust (typeFuel m) t
+  | none => .error (.panic "bad-handle")
 
 /-- `pipeline_overridable_constants` -/
 def pipelineOverridableConstants (m : Module) : G (Option ROverrides) := do
   let fields ← m.overrides.mapM fun ov => do
-    let name ← match ov.name with
-      | some n => pure n
-      | none => .error (.panic "unwrap:override-name")
-    let ty ← match m.types[ov.ty]? with
-      | some t => rustType m .rust (typeFuel m) t
-      | none => .error (.panic "bad-handle")
+    let name ← unwrapName "override-name" ov.name
+    let ty ← overrideFieldType m ov
     pure (name, if ov.hasInit then RustTy.option ty else ty)
   let required ← (m.overrides.filter fun ov => !ov.hasInit).mapM (overrideEntry m)
   let optional ← (m.overrides.filter fun ov => ov.hasInit).mapM (overrideEntry m)
